@@ -1,5 +1,6 @@
 """C09 — AI blame is git blame plus the notes, in every output format."""
 import json
+import os
 import random
 import re
 
@@ -202,7 +203,9 @@ def run_case(case):
         C.setup_repo(sc, 3, 12)
         renamed = False
         for k in range(rng.choice([2, 3, 4])):
-            op = rng.choice(["commit", "commit", "partial", "rename", "rename-edit", "rename-onto-old-name", "rename-onto-old-name", "copy", "readd", "rebase", "cherry", "squash", "merge"])
+            op = rng.choice(["commit", "commit", "partial", "rename", "rename-edit", "rename-onto-old-name", "rename-onto-old-name", "two-renames-merged", "copy", "readd", "rebase", "cherry", "squash", "merge"])
+            if os.environ.get("VERIF_C09_OP"):
+                op = os.environ["VERIF_C09_OP"]
             for _ in range(rng.choice([1, 2, 3])):
                 sc.do_edit()
             if op == "commit":
@@ -251,6 +254,50 @@ def run_case(case):
                     else:
                         sc.files.remove(b)
                     sc.commit_all("mv onto old name")
+            elif op == "two-renames-merged":
+                # ONE commit reached under TWO paths in a single blame: commit X holds a (agent lines) and b (a person's lines at the same
+                # numbers); one branch renames a -> c, another renames b -> c; the merge keeps the lines of both
+                sc.commit_all("before-two-renames")
+                tr = [x for x in sc.files if x in sc.tracked() and sc.read(x)]
+                if len(tr) == 1:
+                    extra = "second%d.txt" % sc.n
+                    sc.write(extra, [sc.fresh("human", hostile=False) for _ in range(4)])
+                    sc.files.append(extra)
+                    sc.commit_all("a second file")
+                    tr.append(extra)
+                if len(tr) >= 2 and not sc.in_progress():
+                    a, b = rng.sample(tr, 2)
+                    pos = rng.choice([0, 1, 2])
+                    la = sc.read(a); lb = sc.read(b)
+                    who = rng.choice(sc.sessions)
+                    sc.w.human_ckpt([a])
+                    la[min(pos, len(la)):min(pos, len(la))] = [sc.fresh(who) for _ in range(rng.choice([1, 2, 3]))]
+                    sc.write(a, la); sc.post_ai(who, a)
+                    lb[min(pos, len(lb)):min(pos, len(lb))] = [sc.fresh("human") for _ in range(rng.choice([2, 3, 4]))]
+                    sc.write(b, lb)
+                    sc.commit_all("X: agent lines in one file, a person's lines at the same numbers in another")
+                    base = sc.current_branch() or "main"
+                    c = "merged%d.txt" % sc.n
+                    side = sc.new_branch_name("rn")
+                    sc.g("checkout", "-q", "-b", side)
+                    sc.g("mv", "--", b, c); sc.commit_all("side: mv b c")
+                    sc.g("checkout", "-q", base)
+                    sc.g("mv", "--", a, c); sc.commit_all("main: mv a c")
+                    sc.g("merge", "-q", "--no-edit", side)
+                    if sc.unmerged() or "MERGE_HEAD" in sc.in_progress():
+                        sc.write(c, la + lb)
+                        sc.styles[c] = sc.styles.get(a, sc.style(c))
+                        sc.write(c, la + lb)
+                        sc.g("add", "-A")
+                        sc.g("commit", "-q", "--no-edit")
+                    if not sc.in_progress():
+                        for x in (a, b):
+                            if x in sc.files:
+                                sc.files.remove(x)
+                        sc.files.append(c)
+                        sc.must_blame = getattr(sc, "must_blame", []) + [c]
+                        renamed = True
+                        sc.ops.append("two-renames-merged")
             elif op == "copy":
                 sc.commit_all("before-cp")
                 f = rng.choice(sc.files)
@@ -288,7 +335,7 @@ def run_case(case):
                     if p.rc != 0:
                         continue
                 tracked = sc.tracked()
-                for f in rng.sample(tracked, min(3, len(tracked))):
+                for f in [x for x in getattr(sc, "must_blame", []) if x in tracked] + rng.sample(tracked, min(3, len(tracked))):
                     nl = len(sc.read(f))
                     for opts in option_sets(sc, f, nl, commits):
                         if compare_one(sc, f, opts, "rev=%s" % rev[:10], cache):
